@@ -356,8 +356,10 @@ class ExternalVariableCollector(NodeVisitor):
         self.vardoc = {}
         self.provenance = {v: "closure" for v in closure_vars}
         self.funcnames = set()
+        self.ann_used = set()
         self.visit(tree)
         self.used -= self.funcnames
+        self.ann_used -= self.used | self.funcnames
 
     def visit_FunctionDef(self, node):
         if self.funcnames:
@@ -369,7 +371,22 @@ class ExternalVariableCollector(NodeVisitor):
             self._visit_nested_scope(node)
         else:
             self.funcnames.add(node.name)
+            returns, node.returns = node.returns, None
             self.generic_visit(node)
+            node.returns = returns
+            self._visit_annotation(returns)
+
+    def visit_AnnAssign(self, node):
+        self.visit(node.target)
+        if node.value is not None:
+            self.visit(node.value)
+        self._visit_annotation(node.annotation)
+
+    def _visit_annotation(self, ann):
+        # The annotations are not evaluated when the function runs: the
+        # names they use may not exist
+        if ann is not None:
+            self.ann_used |= SimpleVariableCollector(ann).vars
 
     visit_AsyncFunctionDef = visit_FunctionDef
 
@@ -471,7 +488,10 @@ class PteraTransformer(NodeTransformer):
         self.used = evc.used
         self.assigned = evc.assigned
         self.free = evc.free
-        self.external = evc.used - evc.assigned - evc.free
+        # Names that only annotations use count if they exist
+        pile = DictPile(glb, __builtins__, default=ABSENT)
+        self.used |= {v for v in evc.ann_used if pile[v] is not ABSENT}
+        self.external = self.used - evc.assigned - evc.free
         self.provenance = evc.provenance
         for ext in self.external:
             self.provenance[ext] = "external"
@@ -513,6 +533,25 @@ class PteraTransformer(NodeTransformer):
             ast.fix_missing_locations(ann)
 
         return ann
+
+    def _static_annotation(self, ann):
+        """Expression for the value of an annotation.
+
+        Python does not evaluate the annotations of the variables of a
+        function when the function runs (they may name things that only
+        exist for a type checker), so the instrumented function must not
+        either: it refers to the value found when it was transformed.
+        """
+        value = self._evaluate(ann)
+        if ann is None or value is ABSENT:
+            return ast.Constant(value=None)
+        table = self.lib["static"][1]
+        table.append(value)
+        return ast.Subscript(
+            value=self._get("static"),
+            slice=ast.Constant(value=len(table) - 1),
+            ctx=ast.Load(),
+        )
 
     def _evaluate(self, node):
         if node in self.evalcache:
@@ -639,7 +678,7 @@ class PteraTransformer(NodeTransformer):
                     annotation = previous
             self.annotated[target.id] = annotation
             self.linenos[target.id] = target.lineno
-        ann_arg = ann if ann else ast.Constant(value=None)
+        ann_arg = self._static_annotation(ann)
         value_arg = self._get("ABSENT") if value is None else value
         pre_stmts = []
         if isinstance(target, ast.Name):
@@ -1502,6 +1541,7 @@ def transform(fn, proceed, to_instrument=True, set_conformer=True):
         "proc": ("__ptera_proc", None),
         "Suspension": ("__ptera_Suspension", _Suspension),
         "Delegation": ("__ptera_Delegation", _Delegation),
+        "static": (f"__ptera_static{fnsym}", []),
         "enter_tag": ("__ptera_enter_tag", enter_tag),
         "exit_tag": ("__ptera_exit_tag", exit_tag),
     }
